@@ -38,6 +38,50 @@ TRIG = f"{TM}:cos_of_acos_divided_by_3"
 SAMPLE = (2, 1, -1, 1, -3, 2, -1, 2, 5)
 
 
+_TRIG_CACHE = {}
+
+
+def trig_function(ctx, qual):
+    """scope of the approximant of cos(acos(x)/3) used by the solver `qual`: by its public name, else by its role -- the one repository function
+    that the solver calls with a single scalar and whose interpreted value is a rational function c(x) of that scalar alone with
+    c(0) = sqrt(3)/2 and c(1) = 1 (to 1e-6).  None when there is no such function."""
+    sc = ctx.repo.find(TRIG)
+    if sc is not None:
+        return sc
+    key = (id(ctx.repo), qual)
+    if key in _TRIG_CACHE and _TRIG_CACHE[key][0] is ctx.repo:
+        return _TRIG_CACHE[key][1]
+    _TRIG_CACHE.clear()
+    found = []
+    nu = ctx.repo.find(qual)
+    if nu is not None and len(nu.params()) == 1:
+        cands = {}
+
+        def hook(it, f, a, k):
+            if len(a) + len(k) == 1 and all(isinstance(v, Dual) for v in list(a) + list(k.values())) and f.scope.kind == "function":
+                cands.setdefault(f.scope.qualname, f.scope)
+        I = SymInterp(ctx.repo)
+        I.call_hook = hook
+        try:
+            I.run(nu, [Arr([Dual(_A.atom(a)) for a in _input_atoms(nu.params()[0])], (3, 3))])
+        except (EvalError, Raised, KeyError, IndexError, TypeError, AttributeError, ZeroDivisionError, RecursionError, ValueError):
+            pass
+        for q, c in cands.items():
+            try:
+                J = SymInterp(ctx.repo)
+                J.tolerant = False
+                v = J.num(J.run(c, [Dual(_A.atom("x"))]))
+                if not (isinstance(v, Dual) and v.a.atoms() == {"x"} and not v.a.d.is_const()):
+                    continue
+                at = lambda t: Fraction(v.a.n.eval({"x": Fraction(t)})) / Fraction(v.a.d.eval({"x": Fraction(t)}))
+                if abs(float(at(1)) - 1.0) < 1e-6 and abs(float(at(0)) - 0.75 ** 0.5) < 1e-6:
+                    found.append(c)
+            except (EvalError, Raised, KeyError, IndexError, TypeError, AttributeError, ZeroDivisionError, RecursionError, ValueError):
+                continue
+    _TRIG_CACHE[key] = (ctx.repo, found[0] if len(found) == 1 else None)
+    return _TRIG_CACHE[key][1]
+
+
 class Guard:
     def __init__(self, cond, lo, hi):
         self.cond, self.lo, self.hi = cond, lo, hi
@@ -62,6 +106,7 @@ class Solver:
         _, self.S, self.m, self.D, self.J2, self.det = reference(_A, self.t)
         self.m, self.J2, self.det = (simplify(_A.norm(x)) for x in (self.m, self.J2, self.det))
         self.error = None
+        self.trig = trig_function(ctx, qual)
         self.guards = []
         self.P2 = self.P3 = None
         try:
@@ -75,8 +120,8 @@ class Solver:
 
     def interpret(self, hyp):
         I = SymInterp(self.ctx.repo, inputs=self.inputs, abstract=True)
-        if self.ctx.repo.find(TRIG) is not None:
-            I.opaque_function(TRIG, "cos_acos_third")
+        if self.trig is not None:
+            I.opaque_function(self.trig.qualname, "cos_acos_third")
         I.hyp.update(hyp)
         out = I.run(self.nu, [self.T])
         return I, out
@@ -168,10 +213,59 @@ def _exact(r: Rat, pt):
     return Fraction(n) / Fraction(d)
 
 
+def as_pair(out):
+    """the two components of a returned pair: a tuple, a list or a two-field NamedTuple / dataclass record; else None"""
+    from optilint.tensoreval import Record
+    if isinstance(out, Record) and len(out.values) == 2:
+        return tuple(out.values)
+    if isinstance(out, (tuple, list)) and len(out) == 2 and not (out and isinstance(out[0], str)):
+        return tuple(out)
+    return None
+
+
+def pair_maker(ctx, qual):
+    """a function (values, vectors) -> the kind of container the repository function `qual` (an eigen solver) returns, so that a stand-in
+    for it can be unpacked, indexed or read by field name exactly like the real result (tuple when the container cannot be read)"""
+    from optilint.tensoreval import Record
+    key = ("maker", id(ctx.repo), qual)
+    if key in _TRIG_CACHE and _TRIG_CACHE[key][0] is ctx.repo:
+        return _TRIG_CACHE[key][1]
+    make = lambda vals, vecs: (vals, vecs)
+    sc = ctx.repo.find(qual)
+    out = None
+    if sc is not None and qual.endswith("non_unit"):
+        # the closed-form solver: the (abstracting) interpretation the algebra rules use anyway
+        try:
+            out = solver(ctx, qual).out1
+        except (AttributeError, EvalError):
+            out = None
+        if isinstance(out, Record) and len(out.values) == 2:
+            make = lambda vals, vecs, out=out: Record(out.tname, out.fields, [vals, vecs], cls=out.cls)
+        elif isinstance(out, list) and len(out) == 2:
+            make = lambda vals, vecs: [vals, vecs]
+    elif sc is not None and len(sc.params()) >= 1:
+        I = SymInterp(ctx.repo)
+        other = [q for q in (f"{TM}:eigen_sym33_non_unit", f"{TM}:eigen_sym33_unit") if q != qual and ctx.repo.find(q) is not None]
+        for q in other:
+            inner = pair_maker(ctx, q) if q.endswith("non_unit") else (lambda a, b: (a, b))
+            I.special[q] = lambda it, a, k, inner=inner: inner(Arr([Dual(_A.atom(f"@s{i}")) for i in range(3)], (3,)),
+                                                               Arr([Dual(_A.atom(f"@w{i}{j}")) for i in range(3) for j in range(3)], (3, 3)))
+        try:
+            out = I.run(sc, [Arr([Dual(_A.atom(f"@t{min(i, j)}{max(i, j)}")) for i in range(3) for j in range(3)], (3, 3))])
+        except (EvalError, Raised, KeyError, IndexError, TypeError, AttributeError, ZeroDivisionError, RecursionError, ValueError):
+            out = None
+        if isinstance(out, Record) and len(out.values) == 2:
+            make = lambda vals, vecs, out=out: Record(out.tname, out.fields, [vals, vecs], cls=out.cls)
+        elif isinstance(out, list) and len(out) == 2:
+            make = lambda vals, vecs: [vals, vecs]
+    _TRIG_CACHE[key] = (ctx.repo, make)
+    return make
+
+
 def _unpack(out):
-    if not (isinstance(out, tuple) and len(out) == 2):
+    if as_pair(out) is None:
         raise EvalError("the solver does not return a pair")
-    vals, vecs = out
+    vals, vecs = as_pair(out)
     E = vals.arr if isinstance(vals, Gather) else vals
     M = vecs.arr if isinstance(vecs, Gather) else vecs
     if not (isinstance(E, Arr) and E.shape == (3,) and isinstance(M, Arr) and M.shape == (3, 3)):
@@ -184,11 +278,11 @@ _CACHE = {}
 
 def solver(ctx, qual) -> Solver:
     key = (id(ctx.repo), qual)
-    if key not in _CACHE:
+    if key not in _CACHE or _CACHE[key][0] is not ctx.repo:          # the tree object is kept with the entry: its id cannot be reused
         _CACHE.clear()
-        _CACHE[key] = Solver(ctx, qual)
-    ctx.touch(_CACHE[key].nu)
-    return _CACHE[key]
+        _CACHE[key] = (ctx.repo, Solver(ctx, qual))
+    ctx.touch(_CACHE[key][1].nu)
+    return _CACHE[key][1]
 
 
 # ------------------------------------------------------------------------------------------------ O2/T7: algebra
@@ -293,7 +387,9 @@ def _trig(ctx, rule, sv, I, Ev):
         if peeled is not None:
             R, has_abs, clipped = peeled
             explicit = all(a in I.inputs or a in _A.rules for a in I.reach([R])[0] if a not in I.let)
-            if has_abs and clipped:
+            if clipped is not True and clipped is not False:
+                state, R = False, None             # min(., c) with a constant c != 1: acos is applied outside / inside its domain
+            elif has_abs and clipped:
                 state = True
             elif explicit:
                 state = False      # an explicit formula of the input without absolute value and/or without the clip to 1
@@ -313,7 +409,11 @@ def _trig(ctx, rule, sv, I, Ev):
     Tq = three / sv.J2
     detp = _as_poly(sv.det)
     q = poly_div_exact(Rf.n, detp) if detp is not None else None
-    if q is not None:
+    # the comparison is exact algebra: it needs r as an explicit formula of the input (entries and square roots of such formulas)
+    understood = all(a in I.inputs or a in _A.rules for a in I.reach([Rf])[0])
+    if not understood:
+        ok_sq = None
+    elif q is not None:
         Rq = Rat(q, Rf.d)
         ok_sq = _A.equal(_A.norm(Rq * Rq), _A.norm(quarter * Tq * Tq * Tq))
     elif len(Rf.n.t) * len(Rf.n.t) <= 250000:
@@ -394,9 +494,18 @@ def _trig(ctx, rule, sv, I, Ev):
             pos = I.numeric(Dk, pt, {ca: 0.9, sigma: 1.0}) > 0
         except (KeyError, ZeroDivisionError):
             pos = None
-    if not mono_ok or sgn_arg_ok is False or pos is False:
+    # positively wrong: (lambda - m)^2 3/J2 is a constant multiple of cos^2 other than 4 / carries no factor that depends on the sign of r
+    # (the root of largest magnitude changes sign with r) / the factor has the opposite sign / the root is negative for r > 0;
+    # a factor whose square is not recognised as 1 is an idiom this rule does not read
+    no_sign = bare = False
+    lp_ = _as_poly(lhs) if lhs is not None else None
+    if lp_ is not None and len(lp_.t) == 1:
+        (mono_, c_), = lp_.t.items()
+        if dict(mono_) == {ca: 2}:
+            bare, no_sign = True, (c_ == 4)
+    if bare or (sigma is not None and not mono_ok) or sgn_arg_ok is False or pos is False:
         ok = False
-    elif sgn_arg_ok and pos:
+    elif mono_ok and sgn_arg_ok and pos:
         ok = True
     else:
         ok = None
@@ -422,6 +531,8 @@ def _peel_clip(I, r: Rat):
             if len(consts) == 1 and rat_const(consts[0].a) == 1 and len(others) == 1 and not clipped:
                 clipped, r = True, others[0].a
                 continue
+            if len(consts) == 1 and len(others) == 1 and not clipped:
+                return others[0].a, has_abs, rat_const(consts[0].a)          # clipped to another constant than 1
             return None
         if a in I.fn and I.fn[a][0] == "abs" and not has_abs:
             has_abs, r = True, I.fn[a][1][0].a
